@@ -8,7 +8,7 @@ git -C /repo archive HEAD | tar -x -C "$d"
 if [ -n "${PRE:-}" ] && ! (cd "$d" && patch -p1 -s < "$PRE"); then echo "PRE PATCH FAILED"; rm -rf "$d"; exit 2; fi
 if ! (cd "$d" && patch -p1 -s < "$patch"); then echo "PATCH FAILED"; rm -rf "$d"; exit 2; fi
 v=$(mktemp -d /tmp/scratch-verif.XXXXXX); mkdir -p $v/evidence; cp /verif/known-findings.txt $v/; ln -s /verif/sa $v/sa
-bin=/verif/bin/gdsa-dev; [ -x $bin ] || bin=/verif/bin/gdsa
+bin=${BIN:-/verif/bin/gdsa-dev}; [ -x $bin ] || bin=/verif/bin/gdsa
 for c in "$@"; do
   GDSA_REPO=$d GDSA_NO_CANARY=1 GDSA_VERIF=$v $bin check $c 2>&1 | grep -a "violated\|undecided\|^C[0-9][0-9] tier" | cut -c1-${CLIP:-400} | awk -v m=${MAXL:-6} 'NR<=m || /tier=/'
 done
